@@ -44,6 +44,7 @@ func (P) Monitor(c *hx.CaseRun) []hx.Failure {
 	allFailed, prevBal := false, ""
 	xm := newXMon()
 	sm := &sysMon{}
+	badFee := map[string]string{}                // tx id -> the confidential op whose fee is not a whole number of gas prices
 	tokCase, tokUnit, tokSupply := false, "", "" // a chain with token confidential transactions: the token supply includes the token pool (`tbal`)
 	subUnit := map[string]string{}               // tx id -> the `ain` op whose account input is zero or not a whole number of units
 	for i, op := range c.Ops {
@@ -98,6 +99,30 @@ func (P) Monitor(c *hx.CaseRun) []hx.Failure {
 		if r, ok := hx.Arg(toks_, "rem"); ok && r != "0" && toks_[0] == "ua" && strings.Contains(ans, "admit=ok") {
 			fs = append(fs, hx.Failure{Monitor: "amount_range_enforced", Class: "sub-unit-account-output-admitted", Site: "types/tx_utxo.go:checkTxSemantic",
 				Msg: "an account output that is not a whole number of commitment units was admitted (its commitment covers amount/unit, the remainder is credited out of nothing): " + op})
+		}
+		if toks_[0] == "ain" || toks_[0] == "uu" || toks_[0] == "ua" {
+			if fu, ok := hx.Arg(toks_, "feeu"); ok && fu != "" {
+				var f int64
+				fmt.Sscan(fu, &f)
+				if f%10 != 0 {
+					if id, ok := hx.Arg(hx.Tokens(ans), "id"); ok {
+						badFee[id] = op
+					}
+					if strings.Contains(ans, "admit=ok") {
+						fs = append(fs, hx.Failure{Monitor: "fees_debited_equal_fees_credited", Class: "fee-not-whole-gas-prices-admitted", Site: "types/tx_utxo.go:checkTxSemantic",
+							Msg: "a confidential transaction whose fee is not a whole number of gas prices (10 units) was admitted (the commitment covers fee/unit, the collector is credited gas x price: fee mod price is destroyed): " + op})
+					}
+				}
+			}
+		}
+		if (toks_[0] == "block" || toks_[0] == "forceblock") && strings.HasPrefix(ans, "h=") {
+			ids, _ := hx.Arg(hx.Tokens(ans), "txs")
+			for _, id := range hx.SplitComma(ids) {
+				if bad, ok := badFee[id]; ok {
+					fs = append(fs, hx.Failure{Monitor: "fees_debited_equal_fees_credited", Class: "fee-not-whole-gas-prices-committed", Site: "types/tx_utxo.go:checkTxSemantic",
+						Msg: "a block was committed that holds a confidential transaction whose fee is not a whole number of gas prices: " + bad})
+				}
+			}
 		}
 		if toks_[0] == "ain" {
 			rem, _ := hx.Arg(toks_, "rem")
@@ -336,6 +361,9 @@ func (P) Generate(g *hx.Gen) {
 	}
 	for k, ns := 0, g.Pick(30, 200); k < ns; k++ {
 		g.Case("account inputs that are not a whole number of commitment units", WithReceipts(SubUnitCase(g)), true)
+	}
+	for k, ns := 0, g.Pick(25, 200); k < ns; k++ {
+		g.Case("confidential fees that are not a whole number of gas prices, below and above the required fee", WithReceipts(FeeCase(g)), true)
 	}
 	for k, ns := 0, g.Pick(24, 160); k < ns; k++ {
 		g.Case("token confidential transactions, token units 1 / 1e6 / 1e10 / 1e18", WithReceipts(TokCase(g, k)), true)
@@ -1521,5 +1549,106 @@ func TokCase(g *hx.Gen, seq int) []string {
 		add("tbal")
 	}
 	add("nonces")
+	return ops
+}
+
+// FeeCase: confidential transactions with an explicit fee (`feeu=`, units of 1e10 wei; the gas price is 10 units): fees that are
+// NOT a whole number of gas prices (required +-1, +-5, and 1, 9, 11), whole ones below the required fee (fee-low) and above
+// it (legal: a fee may be more), on account->confidential (`ain`) and confidential->confidential (`uu`) transactions; submitted,
+// and forced into blocks alone and next to a valid transfer.  Ids are exact.  After every round: `bal`, `nonces`.
+func FeeCase(g *hx.Gen) []string {
+	r := g.Rng
+	ops := []string{hx.CaseOp("fee"), fmt.Sprintf("chain trie=%d accts=3 wallets=2 seed=%d code=1", r.Intn(2), 1+r.Intn(1000)), "bal"}
+	add := func(f string, a ...interface{}) { ops = append(ops, fmt.Sprintf(f, a...)) }
+	nonce := []int{0, 0, 0}
+	id := 0
+	F := 4 + r.Intn(3)
+	for i := 0; i < F; i++ {
+		add("ain from=%d w=0 amount=%d nonce=%d", i%3, 30000000000+r.Intn(1000)*10000, nonce[i%3])
+		nonce[i%3]++
+		id++
+	}
+	add("block")
+	add("bal")
+	free := r.Perm(F)
+	pickFee := func(need int64) (int64, bool) { // the fee, and whether the transaction is valid
+		switch r.Intn(10) {
+		case 0:
+			return need + 1, false
+		case 1:
+			return need - 1, false
+		case 2:
+			return need + 5, false
+		case 3:
+			return need - 5, false
+		case 4:
+			return []int64{1, 9, 11}[r.Intn(3)], false
+		case 5:
+			return need - 10, false // whole, below the required fee
+		case 6:
+			return need / 2 / 10 * 10, false
+		case 7:
+			return need + 10, true // whole, above: legal
+		case 8:
+			return need * 2, true
+		}
+		return need, true
+	}
+	for k, n := 0, 3+r.Intn(g.Pick(3, 5)); k < n; k++ {
+		var a int
+		valid := false
+		if r.Intn(2) == 0 || len(free) == 0 {
+			from := r.Intn(3)
+			amount := int64(20000000000 + r.Intn(100000)*10000)
+			fee, ok := pickFee(int64(appsim.PlainTransferGas(amount)) * 10)
+			add("ain from=%d w=1 amount=%d nonce=%d feeu=%d", from, amount, nonce[from], fee)
+			if ok {
+				nonce[from]++
+			}
+			valid = ok
+			g.Count("fee:ain")
+		} else {
+			in := free[0]
+			fee, ok := pickFee(5000000000)
+			add("uu w=0 in=%d to=1 amount=%d feeu=%d", in, 1+r.Intn(1000000), fee)
+			if ok {
+				free = free[1:]
+			}
+			valid = ok
+			g.Count("fee:uu")
+		}
+		a = id
+		id++
+		if valid {
+			g.Count("fee:valid")
+		} else {
+			g.Count("fee:refused")
+		}
+		switch r.Intn(3) {
+		case 0:
+			add("forceblock ids=%d", a)
+			add("block")
+		case 1:
+			o := r.Intn(3)
+			add("xfer from=%d to=%d amount=%d nonce=%d", o, r.Intn(3), 1+r.Intn(1000), nonce[o])
+			b := id
+			id++
+			if valid && false {
+				_ = b
+			}
+			if r.Intn(2) == 0 {
+				add("forceblock ids=%d,%d", a, b)
+			} else {
+				add("forceblock ids=%d,%d", b, a)
+			}
+			add("block")
+			nonce[o]++
+		default:
+			add("block")
+			add("forceblock ids=%d", a)
+		}
+		add("bal")
+		add("nonces")
+	}
 	return ops
 }
